@@ -116,7 +116,7 @@ fn geo_strategy(tier: Tier) -> BoxedStrategy<MultiCase> {
             let msg = prop_oneof![14 => ascii, 1 => wide];
             let msg2 = msg.clone();
             let spec = (proptest::option::weighted(0.8, 1u64..50), prop_oneof![3 => Just(2u8), 2 => Just(0u8), 1 => 1u8..5], msg.clone())
-                .prop_map(|(len, on_finish, msg)| BarSpec { two_lines: false, len, on_finish, msg, key_nl: false });
+                .prop_map(|(len, on_finish, msg)| BarSpec { two_lines: false, len, on_finish, msg, key_nl: false, blank_first: 0 });
             let log = prop_oneof![3 => "[a-z]{1,4}", 1 => Just(String::new()), 1 => (0usize..3, -1i32..=1).prop_map(move |(k, d)| "l".repeat(((k * c) as i32 + d).max(0) as usize)), 1 => (c / 2 + 1..c + 2).prop_map(move |n| if c % 2 == 0 { "\u{6357}".repeat(n) } else { "l".repeat(n) }),
                 // several lines in one draw: a line that exactly fills k rows, a blank line, another line
                 1 => (1usize..3, "[a-z]{0,3}").prop_map(move |(k, z)| format!("{}\n\n{z}", "f".repeat(k * c)))];
@@ -139,7 +139,7 @@ fn geo_strategy(tier: Tier) -> BoxedStrategy<MultiCase> {
         .prop_map(|(rows, cols, limiter, ops)| match limiter {
             None => MultiCase { rows, cols, hz: None, step_ms: 2, ops, final_drops: vec![] },
             Some((hz, step_ms)) => {
-                let mut all = vec![MOp::Add(BarSpec { two_lines: false, len: Some(5), on_finish: 0, msg: String::new(), key_nl: false })];
+                let mut all = vec![MOp::Add(BarSpec { two_lines: false, len: Some(5), on_finish: 0, msg: String::new(), key_nl: false, blank_first: 0 })];
                 all.extend(std::iter::repeat(MOp::Tick(0)).take(22));
                 all.extend(ops);
                 MultiCase { rows, cols, hz: Some(hz), step_ms, ops: all, final_drops: vec![] }
@@ -158,7 +158,7 @@ fn bottom_strategy(tier: Tier) -> BoxedStrategy<MultiCase> {
             let c = cols as usize;
             let s = || any::<u16>();
             let msg = (0usize..3, -2i32..=2).prop_map(move |(k, d)| "w".repeat(((k * c) as i32 + d - 5).max(0) as usize));
-            let spec = (proptest::option::weighted(0.8, 1u64..50), prop_oneof![3 => Just(2u8), 2 => Just(0u8)], msg.clone()).prop_map(|(len, on_finish, msg)| BarSpec { two_lines: false, len, on_finish, msg, key_nl: false });
+            let spec = (proptest::option::weighted(0.8, 1u64..50), prop_oneof![3 => Just(2u8), 2 => Just(0u8)], msg.clone()).prop_map(|(len, on_finish, msg)| BarSpec { two_lines: false, len, on_finish, msg, key_nl: false, blank_first: 0 });
             let op = prop_oneof![
                 3 => spec.prop_map(MOp::Add),
                 3 => s().prop_map(MOp::Remove),
@@ -215,6 +215,7 @@ fn run_key_nl(c: &MultiCase) -> CaseResult {
     it.teardown()?;
     v.nontrivial = redrawn >= 2;
     v.label_if(redrawn >= 2, "frame_with_a_key_written_line_break_redrawn");
+    v.label_if(c.ops.iter().any(|o| matches!(o, MOp::Add(s) if s.blank_first > 0)), "first_line_of_blanks_that_fills_whole_rows");
     v.label_if(wraps, "line_wraps");
     Ok(v)
 }
@@ -226,8 +227,8 @@ fn key_nl_strategy(tier: Tier) -> BoxedStrategy<MultiCase> {
             let c = cols as usize;
             let s = || any::<u16>();
             let msg = (0usize..3, -2i32..=2).prop_map(move |(k, d)| "w".repeat(((k * c) as i32 + d - 5).max(0) as usize));
-            let spec = (proptest::option::weighted(0.8, 1u64..50), prop_oneof![3 => Just(2u8), 2 => Just(0u8), 1 => 1u8..5], msg.clone(), proptest::bool::weighted(0.6))
-                .prop_map(|(len, on_finish, msg, key_nl)| BarSpec { two_lines: false, len, on_finish, msg, key_nl });
+            let spec = (proptest::option::weighted(0.8, 1u64..50), prop_oneof![3 => Just(2u8), 2 => Just(0u8), 1 => 1u8..5], msg.clone(), proptest::bool::weighted(0.6), prop_oneof![5 => Just(0u8), 2 => Just(1u8), 1 => Just(2u8)])
+                .prop_map(|(len, on_finish, msg, key_nl, blank_first)| BarSpec { two_lines: false, len, on_finish, msg, key_nl, blank_first });
             let op = prop_oneof![
                 3 => spec.prop_map(MOp::Add),
                 2 => s().prop_map(MOp::Remove),
@@ -293,12 +294,12 @@ pub fn property() -> Property {
         }),
         Box::new(Gen::<MultiCase> {
             name: "key_newline",
-            rule: "MultiProgress on a 40-row x 4..40-column terminal, at most four bars whose messages wrap over 1-3 rows and of which 60% get one more line from a custom key that writes a line break (a row that neither the template nor the message announces); ops add/remove/tick/inc/set_message/finish/finish_and_clear/drop/println/clear; full-screen oracle at every flush: every redraw and clear removes all rows of the old frame, the kept rows of dropped bars are exact; non-trivial = a frame with such a line was redrawn at least twice",
+            rule: "MultiProgress on a 40-row x 4..40-column terminal, at most four bars whose messages wrap over 1-3 rows and of which 60% get one more line from a custom key that writes a line break (a row that neither the template nor the message announces) and 3 in 8 start with a template line of blanks that fills one or two whole rows; ops add/remove/tick/inc/set_message/finish/finish_and_clear/drop/println/clear; full-screen oracle at every flush: every redraw and clear removes all rows of the old frame, the kept rows of dropped bars are exact; non-trivial = a frame with such a line was redrawn at least twice",
             strategy: key_nl_strategy,
             cases: |t| t.pick(4_000, 200_000),
             run: run_key_nl,
             signature: crate::props::c02::signature,
-            essential: &["frame_with_a_key_written_line_break_redrawn", "line_wraps"],
+            essential: &["frame_with_a_key_written_line_break_redrawn", "line_wraps", "first_line_of_blanks_that_fills_whole_rows"],
             workers: w,
             decode: None,
         })],
